@@ -22,6 +22,10 @@
    c18_frameworks_agree_partial / c18_samples_agree_partial under the complements of the exact,
    decidable selectors sel_F180 / sel_F181 / sel_F182 (mirrored in the Python oracle), and
    c18_frameworks_agree_repaired for the tree with both repairs (the current one).
+   The two bounds are resolved PER DIMENSION (height: config height if set else argument height; width likewise,
+   independently): c18_bounds_resolved_per_dimension / c18_frameworks_resolve_same_bounds /
+   c18_bound_ignores_other_dimension; c18_joint_resolution_agrees_iff + c18_mixed_bounds_witness say where a rule
+   that looks at both config values together would differ (exactly one of the two set).
    `domain` / c18_frameworks_agree / c18_single_mem_str ... below are the COMPONENT theorems about
    `pipeline` (all frameworks handed the same bounds; single-instance with max_instances = 1):
    `domain` is NOT the property's domain (review finding 2) — `agree_domain` is.
@@ -451,6 +455,82 @@ Print Assumptions c18_frameworks_agree_repaired.
 Theorem c18_fmem_npc_same : forall t x c fr, same_sample (fpipeline t Mem x c fr) (fpipeline t Npc x c fr).
 Proof. exact fpipeline_mem_npc. Qed.
 Print Assumptions c18_fmem_npc_same.
+
+(* ---- round 6: max_height and max_width are resolved PER DIMENSION (each independently None / set) ---- *)
+Lemma resolve_max_def : forall cfgv argv, resolve_max cfgv argv = match cfgv with Some v => Some v | None => argv end.
+Proof. reflexivity. Qed.
+Print Assumptions resolve_max_def.
+
+(* every framework (chunk functions always; dataset classes on the repaired tree) hands apply_sizematcher
+   `config height if set else argument height` and, separately, `config width if set else argument width` *)
+Theorem c18_bounds_resolved_per_dimension : forall f x c, x_fx180 x = true ->
+  c_maxh (fw_cfg f x c) = resolve_max (x_cfgh x) (x_argh x) /\
+  c_maxw (fw_cfg f x c) = resolve_max (x_cfgw x) (x_argw x).
+Proof. exact fw_bounds_per_dimension. Qed.
+Print Assumptions c18_bounds_resolved_per_dimension.
+
+Theorem c18_chunk_bounds_resolved_per_dimension : forall x c,
+  c_maxh (fw_cfg Str x c) = resolve_max (x_cfgh x) (x_argh x) /\
+  c_maxw (fw_cfg Str x c) = resolve_max (x_cfgw x) (x_argw x).
+Proof. exact str_bounds_per_dimension. Qed.
+Print Assumptions c18_chunk_bounds_resolved_per_dimension.
+
+(* all combinations of the four sources (each None or set): the same two bounds in every framework *)
+Theorem c18_frameworks_resolve_same_bounds : forall f1 f2 x c, x_fx180 x = true ->
+  c_maxh (fw_cfg f1 x c) = c_maxh (fw_cfg f2 x c) /\ c_maxw (fw_cfg f1 x c) = c_maxw (fw_cfg f2 x c).
+Proof. exact fw_bounds_same. Qed.
+Print Assumptions c18_frameworks_resolve_same_bounds.
+
+(* the height bound does not depend on the width's sources, and vice versa *)
+Theorem c18_bound_ignores_other_dimension : forall f x x' c c',
+  x_fx180 x = true -> x_fx180 x' = true ->
+  (x_cfgh x = x_cfgh x' -> x_argh x = x_argh x' -> c_maxh (fw_cfg f x c) = c_maxh (fw_cfg f x' c')) /\
+  (x_cfgw x = x_cfgw x' -> x_argw x = x_argw x' -> c_maxw (fw_cfg f x c) = c_maxw (fw_cfg f x' c')).
+Proof. exact fw_bound_ignores_other_dimension. Qed.
+Print Assumptions c18_bound_ignores_other_dimension.
+
+(* the all-or-nothing rule `joint_max` (config pair only when BOTH are set, else max_hw; no framework's rule)
+   coincides with the per-dimension rule exactly off the mixed configurations *)
+Lemma joint_max_def : forall x, joint_max x =
+  match x_cfgh x, x_cfgw x with Some h, Some w => (Some h, Some w) | _, _ => (x_argh x, x_argw x) end.
+Proof. reflexivity. Qed.
+Print Assumptions joint_max_def.
+
+Theorem c18_joint_resolution_agrees_iff : forall x,
+  joint_max x = (st_maxh x, st_maxw x) <->
+  ((x_cfgh x = None <-> x_cfgw x = None) \/
+   (x_cfgw x = None /\ x_cfgh x = x_argh x) \/
+   (x_cfgh x = None /\ x_cfgw x = x_argw x)).
+Proof. exact joint_max_agrees_iff. Qed.
+Print Assumptions c18_joint_resolution_agrees_iff.
+
+(* non-vacuity, exactly ONE config value set (64x64 frame, argument 64x64): max_height 128 / max_width None ->
+   every framework pads to 128x64; max_height None / max_width 32 -> every framework scales by 1/2 to 64x32;
+   all frameworks agree (all four types); a chunk function with the all-or-nothing rule would not *)
+Theorem c18_mixed_bounds_witness :
+  let fr := wframe64 [[Some (20, 30); Some (40, 44)]] 1%nat in
+  let xa := wxm (Some 128%Z) None in
+  let xb := wxm None (Some 32%Z) in
+  (forall f, osize (fpipeline Single f xa wcfg0 fr) = (128%Z, 64%Z) /\
+             o_pts (fpipeline Single f xa wcfg0 fr) = [[Some (20, 30); Some (40, 44)]]) /\
+  (forall f, osize (fpipeline Single f xb wcfg0 fr) = (64%Z, 32%Z) /\
+             o_pts (fpipeline Single f xb wcfg0 fr) = [[Some (10, 15); Some (20, 22)]]) /\
+  joint_max xa = (Some 64%Z, Some 64%Z) /\ joint_max xb = (Some 64%Z, Some 64%Z) /\
+  (forall f x, x = xa \/ x = xb ->
+     osize (pipeline Single f (set_max wcfg0 (fst (joint_max x)) (snd (joint_max x))) fr) = (64%Z, 64%Z) /\
+     o_pts (pipeline Single f (set_max wcfg0 (fst (joint_max x)) (snd (joint_max x))) fr) = [[Some (20, 30); Some (40, 44)]]) /\
+  (forall t, t = Single \/ t = BottomUp \/ t = Centroid \/ t = Centered 0 ->
+     forall x, x = xa \/ x = xb ->
+     agree_domain t wcfg0 fr /\
+     (forall f1 f2, agree t (fpipeline t f1 x wcfg0 fr) (fpipeline t f2 x wcfg0 fr))) /\
+  (forall t, t = Single \/ t = BottomUp \/ t = Centroid ->
+     ~ agree t (fpipeline t Mem xa wcfg0 fr)
+               (pipeline t Str (set_max wcfg0 (fst (joint_max xa)) (snd (joint_max xa))) fr)) /\
+  (forall t, t = Single \/ t = BottomUp \/ t = Centroid \/ t = Centered 0 ->
+     ~ agree t (fpipeline t Mem xb wcfg0 fr)
+               (pipeline t Str (set_max wcfg0 (fst (joint_max xb)) (snd (joint_max xb))) fr)).
+Proof. exact mixed_bounds_witness. Qed.
+Print Assumptions c18_mixed_bounds_witness.
 
 (* where the F180 selector cannot fire: config bounds unset, or equal to the argument, or repaired *)
 Theorem c18_sel_F180_off : forall x fr,
